@@ -16,7 +16,7 @@ def dispatch (d : DState) (s : Step) : DState :=
   match s.op.name with
   | "powercap" => { d with acc := stepPowercap a s }
   | "keyorder" | "diff" | "accum" | "cinit" | "applycc" =>
-    if d.stream == "consumer" || d.stream == "crewards" then
+    if d.stream.startsWith "consumer" || d.stream == "crewards" then
       let r := stepCons d.cd a s
       { d with cd := r.1, acc := r.2 }
     else
